@@ -45,8 +45,10 @@ Doc(fmt, tfm, skipdef, fault, tests) ==
 \*  noshell : --shell points to a program that does not exist
 \*  dirarg : the documents are not named one by one; the directory that contains them (and a nested directory, and
 \*           files that are no test documents) is given instead -- the order among them is then unspecified
+\*  rel    : the shared documents given with -P / -A are named RELATIVE to the current directory, which is not the directory
+\*           of the tested documents (where like-named decoy documents lie); no effect on what runs
 Run(docs, tcli, pre, app, via, noshell) ==
-    [docs |-> docs, tcli |-> tcli, pre |-> pre, app |-> app, via |-> via, noshell |-> noshell, dirarg |-> FALSE, compat |-> FALSE]
+    [docs |-> docs, tcli |-> tcli, pre |-> pre, app |-> app, via |-> via, noshell |-> noshell, dirarg |-> FALSE, compat |-> FALSE, rel |-> FALSE]
 \*  compat : --cram-compat is given: Markdown documents are executed like Cram documents (one script per document, Cram
 \*           format defaults); their syntax (front-matter, inline configuration) stays Markdown
 Script(s, i) == s.docs[i].fmt = "cram" \/ s.compat
